@@ -6,7 +6,8 @@ import random
 from hist import *
 import c04
 
-SAFE = ["alice", "data one", "x,y", "a, b", "é", "日本", "p", "g2", "a#b", "/p/*", "k=v", "r.sub", "-", "1"]
+SAFE = ["alice", "data one", "x,y", "a, b", "é", "日本", "p", "g2", "a#b", "/p/*", "k=v", "r.sub", "-", "1",
+        "x, ", " ,y "]   # comma + edge blanks: written in quotes, kept verbatim
 
 
 def generate(tier, seed):
